@@ -129,8 +129,32 @@ func NewWorld(kinds [2]string, dir string) (*World, error) {
 	return w, nil
 }
 
+// roBucket: a read-only bucket where a read-write one is expected (states are only observed through it).
+type roBucket struct{ storage.ReadBucket }
+
+func (roBucket) Put(context.Context, string, ...storage.PutOption) (storage.WriteObjectCloser, error) {
+	return nil, errors.New("read-only base")
+}
+func (roBucket) Delete(context.Context, string) error    { return errors.New("read-only base") }
+func (roBucket) DeleteAll(context.Context, string) error { return errors.New("read-only base") }
+func (roBucket) SetExternalAndLocalPathsSupported() bool { return false }
+
+// respell gives a valid but not normalised spelling of a path (the keys of a map handed to storagemem.NewReadBucket).
+func respell(p string) string {
+	if i := strings.Index(p, "/"); i > 0 {
+		return p[:i] + "//" + p[i+1:]
+	}
+	return "./" + p
+}
+
 func (w *World) resetBase(i int) error {
 	switch w.Kinds[i] {
+	case "memro":
+		b, err := storagemem.NewReadBucket(map[string][]byte{})
+		if err != nil {
+			return err
+		}
+		w.Bases[i] = roBucket{b}
 	case "mem":
 		w.Bases[i] = storagemem.NewReadWriteBucket()
 	case "os":
@@ -165,6 +189,19 @@ func (w *World) Load(ctx context.Context, s State) error {
 			want[join(o.P)] = o.C
 		}
 		have := map[string]string{}
+		if w.Kinds[i] == "memro" {
+			// an immutable memory bucket built from a map whose keys are spelled in a non-normalised way
+			m := map[string][]byte{}
+			for p, c := range want {
+				m[respell(p)] = contents[c]
+			}
+			b, err := storagemem.NewReadBucket(m)
+			if err != nil {
+				return err
+			}
+			w.Bases[i] = roBucket{b}
+			continue
+		}
 		if fresh {
 			if err := w.resetBase(i); err != nil {
 				return err
@@ -292,6 +329,10 @@ func (w *World) ReadView(name string) (storage.ReadBucket, error) {
 		return storage.FilterReadBucket(b1, storage.MatchPathContained("a")), nil
 	case "f_not_b":
 		return storage.FilterReadBucket(b1, storage.MatchNot(storage.MatchPathEqualOrContained("b"))), nil
+	case "f_in_file":
+		return storage.FilterReadBucket(b1, storage.MatchPathContained("a.proto")), nil
+	case "f_not_in_file":
+		return storage.FilterReadBucket(b1, storage.MatchNot(storage.MatchPathContained("a.proto"))), nil
 	case "multi":
 		return storage.MultiReadBucket(b1, b2), nil
 	case "multi_rev":
@@ -663,11 +704,11 @@ func runStates(in []byte) (*reg.Result, error) {
 }
 
 type edgesInput struct {
-	Edges  []edge      `json:"edges"`
-	States []stateRec  `json:"states"`
-	Spells []spell     `json:"spells"`
-	Kinds  [][2]string `json:"kinds"`
-	Corrupt bool       `json:"corrupt"`
+	Edges   []edge      `json:"edges"`
+	States  []stateRec  `json:"states"`
+	Spells  []spell     `json:"spells"`
+	Kinds   [][2]string `json:"kinds"`
+	Corrupt bool        `json:"corrupt"`
 }
 
 // Apply executes one specification transition on the world and returns the result class.
